@@ -4,6 +4,7 @@ From Coq Require Import Lia.
 From AHP Require Import Model.Base Model.Str Model.Attr Model.Dom Model.Serial Model.Parser Model.RoundTrip Model.Search Model.Index Gen.Tables
      Proofs.StrProofs Proofs.AttrProofs Proofs.DomProofs Proofs.CodecProofs Proofs.ObserveProofs Proofs.CloneProofs Proofs.RoundTripProofs
      Proofs.IndexProofs Proofs.IndexedParserProofs.
+From AHP Require Import Model.Observe.
 
 (* ---- what the tokenizer reads back from a start tag = the attribute list of the mapping with bare boolean attributes value-less ---- *)
 Definition norm_entry (kv : string * aval) : string * aval :=
@@ -189,4 +190,12 @@ Proof.
     rewrite (tree_of_view s root Hi Ht) in Hs. unfold nodes_view in Hs. rewrite Forall_map in Hs.
     unfold GoodTree. eapply Forall_impl; [|exact Hs]. intros [h bs] Hx. exact Hx. }
   unfold feed in H. destruct (prun cls pinit ts1) as [s1|e] eqn:E1; [inversion H; subst; eauto|]. destruct e; try discriminate. eauto.
+Qed.
+
+(* a parsed document whose style declarations are non-degenerate comes back from pickle with the identical serialisation *)
+Theorem parsed_unpickle_html cls ts1 ts2 s root p : Forall tok_attrs_ok ts1 -> Forall tok_attrs_ok ts2 ->
+  feed cls ts1 ts2 = POk s -> tree_of s = Some root -> outer_html (unpickle p root) = outer_html root.
+Proof.
+  intros H1 H2 Hf Ht. apply unpickle_html. pose proof (parsed_good_tree cls ts1 ts2 s root H1 H2 Hf Ht) as Hg.
+  unfold GoodTree in Hg. eapply Forall_impl; [|exact Hg]. intros x [Hb Hi]. split; auto. now apply Built_faithful.
 Qed.
